@@ -411,7 +411,8 @@ impl Sender {
                     self.credits.request(data_len.min(u32::MAX as usize) as u32, size_of::<u32>() as u32).await?;
             }
 
-            let max_ports = self.chunk_size.min(credits.available() as usize) / size_of::<u32>();
+            // A port request takes up to 8 bytes of a frame (port number and id), but only 4 credits.
+            let max_ports = (self.chunk_size / 8).max(1).min(credits.available() as usize / size_of::<u32>());
             let next =
                 if ports_response.len() > max_ports { ports_response.split_off(max_ports) } else { Vec::new() };
 
